@@ -16,7 +16,7 @@ Parts     tag_strings   every string of <= L tokens over the 19-token syntax alp
           roundtrip     for every generated tag: parse_tag(serialize(parse_tag(t))) == parse_tag(t)
                         modulo start_index, serialize is a fixpoint, resolved values are equal;
           complexity    pumping families pre . unit^k . post (+ nesting families) for
-                        k = 16,32,64,128 (quick: 8,16,32,64), unit over all strings of <= 2 tokens: executed *lines*
+                        k = 16,32,64,128 (thorough: 32..256), unit over all strings of <= 2 tokens: executed *lines*
                         of django_components/** and django/template/base.py counted with
                         sys.settrace (deterministic, no clock); steps(2k) <= 4.5 * steps(k) on the
                         last two doublings (a polynomial with non-negative coefficients of degree
@@ -63,8 +63,8 @@ HEADS = [
 MUT_HEADS = [HEADS[0], HEADS[6]]
 HANG_SECONDS = 2.0
 MAX_HANGS = 2
-KS_THOROUGH = (16, 32, 64, 128)
-KS_QUICK = (8, 16, 32, 64)
+KS_THOROUGH = (32, 64, 128, 256)
+KS_QUICK = (16, 32, 64, 128)
 RATIO = 4.5
 STEP_FLOOR = 5000
 
@@ -82,7 +82,8 @@ def _on_alarm(signum, frame):
     while f is not None:
         fn = f.f_code.co_filename
         if "django_components" in fn:
-            site = f"{os.path.basename(fn)}:{f.f_code.co_name}"
+            # the enclosing top-level function: where the alarm lands inside its helper closures is arbitrary
+            site = f"{os.path.basename(fn)}:{f.f_code.co_qualname.split('.<locals>')[0]}"
             break
         f = f.f_back
     if not site and frame is not None:
@@ -435,7 +436,7 @@ _RT_CONTEXT = {"a": {"k": "A"}, "b": "B", "l": [1, 2], "d": {"x": 1, "y": 2}}
 
 
 def roundtrip_problem(text: str):
-    """-> (status, problem)  status: 'ok' | 'rejected'"""
+    """-> (status, problem)  status: 'ok' | 'rejected', problem: (clause, text) | None"""
     from django.template import Context
     from django.template.exceptions import TemplateSyntaxError
 
@@ -446,17 +447,20 @@ def roundtrip_problem(text: str):
     except TemplateSyntaxError:
         return "rejected", None
     d1 = ast_dump(attrs1)
-    ser = " ".join(a.serialize() for a in attrs1)
+    try:
+        ser = " ".join(a.serialize() for a in attrs1)
+    except TemplateSyntaxError as e:
+        return "ok", ("serialize-rejected", f"serialize() of an accepted tag raises TemplateSyntaxError: {e}")
     try:
         _, attrs2 = parse_tag(ser, _parser())
     except TemplateSyntaxError as e:
-        return "ok", f"serialisation {ser!r} is rejected on re-parse: {e}"
+        return "ok", ("reparse-rejected", f"serialisation {ser!r} is rejected on re-parse: {e}")
     d2 = ast_dump(attrs2)
     if d1 != d2:
-        return "ok", f"re-parsing the serialisation {ser!r} yields different arguments: {d2} != {d1}"
+        return "ok", ("ast-differs", f"re-parsing the serialisation {ser!r} yields different arguments: {d2} != {d1}")
     ser2 = " ".join(a.serialize() for a in attrs2)
     if ser2 != ser:
-        return "ok", f"serialisation is not a fixpoint: {ser!r} -> {ser2!r}"
+        return "ok", ("not-fixpoint", f"serialisation is not a fixpoint: {ser!r} -> {ser2!r}")
     try:
         r1 = [repr(a.value.resolve(Context(dict(_RT_CONTEXT)))) for a in attrs1]
     except Exception:  # noqa  - resolving is C02's business; compare only when the original resolves
@@ -464,9 +468,9 @@ def roundtrip_problem(text: str):
     try:
         r2 = [repr(a.value.resolve(Context(dict(_RT_CONTEXT)))) for a in attrs2]
     except Exception as e:  # noqa
-        return "ok", f"original resolves to {r1} but the re-parsed serialisation {ser!r} raises {type(e).__name__}: {e}"
+        return "ok", ("resolve-differs", f"original resolves to {r1} but the re-parsed serialisation {ser!r} raises {type(e).__name__}: {e}")
     if r1 != r2:
-        return "ok", f"resolved values differ after the round trip: {r2} != {r1}"
+        return "ok", ("resolve-differs", f"resolved values differ after the round trip: {r2} != {r1}")
     return "ok", None
 
 
@@ -484,11 +488,30 @@ def _worker_mut(w, W, payload):
         full = "component 'c' " + text
         agg.extra["rt:states"] += 1
         agg.extra["rt:transitions"] += 2
-        status, problem = roundtrip_problem(full)
+        signal.signal(signal.SIGALRM, _on_alarm)
+        signal.setitimer(signal.ITIMER_REAL, HANG_SECONDS)
+        try:
+            status, problem = roundtrip_problem(full)
+        except _Hang:
+            status, problem = "hang", None
+            rec.hangs += 1
+            rec.fail(f"hang:{_hang_site[0]}", f"no answer within {HANG_SECONDS} s  [round trip of {full!r}]", (len(text), text),
+                     {"part": "roundtrip", "input": full})
+        except Exception as e:  # parse_tag / serialize raised something that is not a TemplateSyntaxError
+            signal.setitimer(signal.ITIMER_REAL, 0)
+            status, problem = "crash", None
+            rec.fail(f"crash:{_site(e)[0]}", f"{type(e).__name__}: {e}  [round trip of {full!r}]", (len(text), text),
+                     {"part": "roundtrip", "input": full})
+        finally:
+            signal.setitimer(signal.ITIMER_REAL, 0)
+        if rec.hangs >= MAX_HANGS:
+            agg.caps.append(f"worker {w} stopped after {rec.hangs} hangs")
+            rec.flush()
+            return agg
         agg.extra["rt:" + status] += 1
         agg.observe(("rt", status, text))
         if problem:
-            rec.fail(f"roundtrip:{text}", f"{problem}  [tag {full!r}]", (len(text), text), {"part": "roundtrip", "input": full})
+            rec.fail(f"roundtrip:{problem[0]}", f"{problem[1]}  [tag {full!r}]", (len(text), text), {"part": "roundtrip", "input": full})
     for i, text in enumerate(_MUTANTS):
         if i % W != w:
             continue
@@ -630,6 +653,9 @@ def _worker_complexity(w, W, payload):
             steps.append(n)
             outs.append(out)
             agg.extra["cx:transitions"] += 1
+            if out == "hang":
+                steps += [n] * (len(KS) - len(steps))
+                break
         agg.extra["cx:states"] += 1
         name = f"{sort}:{fam[0]}:{fam[1]!r}+{fam[2]!r}^k+{fam[3]!r}"
         case = {"part": "complexity", "sort": sort, "family": list(fam), "ks": list(KS)}
@@ -637,7 +663,11 @@ def _worker_complexity(w, W, payload):
             if out.startswith("crash:"):
                 rec.fail(out, f"pumped input raises {out[6:]}  [family {name}]", (len(name), name), case)
             elif out == "hang":
+                rec.hangs += 1
                 rec.fail(f"hang:{_hang_site[0]}", f"pumped input does not finish within 20 s  [family {name}]", (len(name), name), case)
+        if rec.hangs >= MAX_HANGS:
+            agg.caps.append(f"worker {w} stopped after {rec.hangs} hangs")
+            break
         agg.extra["cx:out:" + outs[-1].split(":")[0]] += 1
         agg.observe((outs[-1], tuple(steps)))
         if steps[-1] > STEP_FLOOR:
@@ -648,7 +678,7 @@ def _worker_complexity(w, W, payload):
             agg.samples = [{"worst_family": name, "steps": steps, "ratio_last_doubling": round(ratio, 3)}]
         p = complexity_problem(steps, KS)
         if p:
-            rec.fail(f"complexity:{name}", f"{p}  [family {name}]", (len(name), name), case)
+            rec.fail(f"complexity:{sort}:{fam[0]}", f"{p}  [family {name}]", (len(name), name), case)
     rec.flush()
     return agg
 
@@ -713,6 +743,9 @@ def run(ctx):
                 nontrivial=agg.extra["tpl:nontrivial"],
                 expected=Counter({k[4:]: v for k, v in agg.extra.items() if k.startswith("tpl:W:")}),
                 bound={"alphabet": TPL_ALPHABET, "max_tokens": L_tpl})
+    if ev.caps_hit:
+        print("C12: enumeration cut short by hangs - remaining parts skipped (the run is a violation)", flush=True)
+        return
     # ---- mutations + round trip
     t0 = time.time()
     agg = par.run_sharded(_worker_mut, None)
@@ -722,7 +755,7 @@ def run(ctx):
     elif agg.extra["mut:states"] != len(_MUTANTS) or agg.extra["rt:states"] != len(_VALID):
         raise par.HarnessError("mutation / round-trip enumeration incomplete")
     _merge_failures(agg, fnd)
-    if agg.extra["rt:ok"] < 0.9 * len(_VALID):
+    if agg.extra["rt:ok"] < 0.9 * len(_VALID) and not fnd.total_failures:
         raise par.HarnessError(f"only {agg.extra['rt:ok']} of {len(_VALID)} generated documented-syntax tags are accepted by parse_tag - generator broken")
     ev.add_part("mutations", states=agg.extra["mut:states"], transitions=agg.extra["mut:transitions"], validated=agg.extra["mut:transitions"],
                 nontrivial=agg.extra["mut:nontrivial"],
@@ -732,12 +765,17 @@ def run(ctx):
     ev.add_part("roundtrip", states=agg.extra["rt:states"], transitions=agg.extra["rt:transitions"], validated=agg.extra["rt:ok"],
                 nontrivial=agg.extra["rt:ok"], expected=Counter({"accepted": agg.extra["rt:ok"], "rejected_valid": agg.extra["rt:rejected"]}),
                 bound={"valid_tags": len(_VALID)})
+    if ev.caps_hit:
+        print("C12: enumeration cut short by hangs - remaining parts skipped (the run is a violation)", flush=True)
+        return
     # ---- complexity
     t0 = time.time()
     KS = KS_THOROUGH if thorough else KS_QUICK
     agg = par.run_sharded(_worker_complexity, {"KS": KS})
     print(f"C12: complexity done in {time.time() - t0:.1f} s", flush=True)
-    if agg.extra["cx:states"] != nfam:
+    if agg.caps:
+        ev.caps_hit.extend(agg.caps)
+    elif agg.extra["cx:states"] != nfam:
         raise par.HarnessError("complexity enumeration incomplete")
     _merge_failures(agg, fnd)
     worst = max(agg.samples, key=lambda s: s["ratio_last_doubling"]) if agg.samples else None
@@ -757,7 +795,11 @@ def replay(ctx, case):
     env()
     part = case["part"]
     if part == "roundtrip":
-        status, problem = roundtrip_problem(case["input"])
+        try:
+            status, problem = roundtrip_problem(case["input"])
+        except Exception as e:  # noqa
+            print("tag:", repr(case["input"]), "raised", type(e).__name__, e)
+            return False
         print("tag:", repr(case["input"]), "status:", status, "problem:", problem)
         return problem is None
     if part == "complexity":
